@@ -35,11 +35,11 @@ def linObj (e : List Int) (k : Int) : Val → Rat := fun x => dot e x + (k : Rat
 
 /-! ### the relaxation -/
 
-theorem lpMax_correct (n : Nat) (e : List Int) (k : Int) (cs : List Con)
+theorem lpMaxFM_correct (n : Nat) (e : List Int) (k : Int) (cs : List Con)
     (hwf : WF n cs) (hns : NonStrict cs) (he : e.length ≤ n) :
-    CorrectS (sem cs) (linObj e k) (lpMax n e k cs) := by
+    CorrectS (sem cs) (linObj e k) (lpMaxFM n e k cs) := by
   have hspec := supB_spec n e k cs hwf he
-  unfold lpMax
+  unfold lpMaxFM
   cases hs : supB n e k cs with
   | empty => rw [hs] at hspec; exact hspec
   | unbounded => rw [hs] at hspec; exact hspec
@@ -49,8 +49,127 @@ theorem lpMax_correct (n : Nat) (e : List Int) (k : Int) (cs : List Con)
     have hatt' := hatt (supB_attained n e k cs hns p q att hs)
     exact ⟨hatt', hle⟩
 
+theorem lpMaxFM_known (n : Nat) (e : List Int) (k : Int) (cs : List Con) : (lpMaxFM n e k cs).isKnown = true := by
+  unfold lpMaxFM; split <;> rfl
+
+/-- rows are affine: `a·(x + t d) = a·x + t (a·d)` -/
+theorem dot_axpy (as : List Int) (x d : Val) (t : Rat) :
+    dot as (fun i => x i + t * d i) = dot as x + t * dot as d := by
+  induction as generalizing x d with
+  | nil => simp
+  | cons a as ih =>
+    simp only [dot_cons]
+    have : (Val.tail fun i => x i + t * d i) = fun i => x.tail i + t * d.tail i := rfl
+    rw [this, ih]; ring
+
+theorem conHolds_iff (c : Con) (x : Val) : conHolds c x = true ↔ c.sat x := by
+  unfold conHolds Con.sat
+  split <;> simp
+
+/-- a feasible point and a recession direction improving the objective: unbounded -/
+theorem unbounded_of_ray (e : List Int) (k : Int) (cs : List Con) (x d : Val)
+    (hx : Sat cs x) (hd : Sat (rayRows e cs) d) : IsUnboundedS (sem cs) (linObj e k) := by
+  have hed : 1 ≤ dot e d := by
+    have := hd (geRow e (-1)) (by simp [rayRows])
+    simp only [Con.sat, geRow, Con.eval, Bool.false_eq_true, if_false] at this
+    push_cast at this; linarith
+  have hrow : ∀ c ∈ cs, 0 ≤ dot c.coeffs d := by
+    intro c hc
+    have := hd ⟨c.coeffs, 0, false⟩ (by
+      simp only [rayRows, List.mem_cons, List.mem_map]
+      exact Or.inr ⟨c, hc, rfl⟩)
+    simpa [Con.sat, Con.eval] using this
+  have hmove : ∀ t : Rat, 0 ≤ t → Sat cs (fun i => x i + t * d i) := by
+    intro t ht c hc
+    have h1 := hx c hc
+    have h2 := mul_nonneg ht (hrow c hc)
+    unfold Con.sat Con.eval at *
+    rw [dot_axpy]
+    split at h1 <;> simp only [*, if_true, Bool.false_eq_true, if_false] <;> linarith
+  refine ⟨⟨x, hx⟩, fun M => ?_⟩
+  let t : Rat := max 0 (M - linObj e k x + 1)
+  have ht : 0 ≤ t := le_max_left _ _
+  refine ⟨_, hmove t ht, ?_⟩
+  unfold linObj at *
+  rw [dot_axpy]
+  have h1 : M - (dot e x + (k : Rat)) + 1 ≤ t := le_max_right _ _
+  have h2 : t ≤ t * dot e d := by nlinarith
+  linarith
+
+theorem betterRow_sat (e : List Int) (k : Int) (v : Rat) (y : Val) :
+    (betterRow e k v).sat y ↔ v < linObj e k y := by
+  unfold betterRow linObj Con.sat gtRow Con.eval
+  simp only [if_true]
+  rw [dot_map_mul]
+  have hd : (0 : Rat) < (v.den : Rat) := by exact_mod_cast v.den_pos
+  have hv : v = (v.num : Rat) / (v.den : Rat) := (Rat.num_div_den v).symm
+  push_cast
+  constructor
+  · intro h
+    rw [hv, div_lt_iff₀ hd]; linarith
+  · intro h
+    rw [hv, div_lt_iff₀ hd] at h; linarith
+
+theorem rayRows_wf (n : Nat) (e : List Int) (cs : List Con) (hwf : WF n cs) (he : e.length ≤ n) :
+    WF n (rayRows e cs) := by
+  intro c hc
+  simp only [rayRows, List.mem_cons, List.mem_map] at hc
+  rcases hc with rfl | ⟨d, hd, rfl⟩
+  · exact he
+  · exact hwf d hd
+
+theorem lpMax_correct (n : Nat) (e : List Int) (k : Int) (cs : List Con)
+    (hwf : WF n cs) (hns : NonStrict cs) (he : e.length ≤ n) :
+    CorrectS (sem cs) (linObj e k) (lpMax n e k cs) := by
+  unfold lpMax
+  by_cases hf : feasible n cs = true
+  · simp only [hf, Bool.not_true, Bool.false_eq_true, if_false]
+    obtain ⟨x0, hx0⟩ := (feasible_iff n cs hwf).mp hf
+    by_cases hr : feasible n (rayRows e cs) = true
+    · simp only [hr, if_true]
+      obtain ⟨d, hd⟩ := (feasible_iff n _ (rayRows_wf n e cs hwf he)).mp hr
+      exact unbounded_of_ray e k cs x0 d hx0 hd
+    · simp only [hr, Bool.false_eq_true, if_false]
+      cases hc : lpCandidate n e cs with
+      | none => exact lpMaxFM_correct n e k cs hwf hns he
+      | some x =>
+        simp only
+        split
+        · rename_i hchk
+          rw [Bool.and_eq_true, List.all_eq_true, Bool.not_eq_true', ← Bool.not_eq_true] at hchk
+          obtain ⟨hsat, hnb⟩ := hchk
+          have hwf' : WF n (betterRow e k (dot e x.val + (k : Rat)) :: cs) := by
+            intro c hc'
+            rcases List.mem_cons.mp hc' with rfl | h
+            · simp only [betterRow, gtRow, List.length_map]; exact he
+            · exact hwf c h
+          rw [feasible_iff n _ hwf'] at hnb
+          refine ⟨⟨x.val, fun c hc' => (conHolds_iff c _).mp (hsat c hc'), rfl⟩, fun y hy => ?_⟩
+          by_contra hlt
+          apply hnb
+          refine ⟨y, ?_⟩
+          rw [Sat_cons]
+          exact ⟨(betterRow_sat e k _ y).mpr (not_le.mp hlt), hy⟩
+        · exact lpMaxFM_correct n e k cs hwf hns he
+  · have hf' : feasible n cs = false := by simpa using hf
+    simp only [hf', Bool.not_false, if_true]
+    show sem cs = ∅
+    rw [Set.eq_empty_iff_forall_notMem]
+    intro x hx
+    exact hf ((feasible_iff n cs hwf).mpr ⟨x, hx⟩)
+
 theorem lpMax_known (n : Nat) (e : List Int) (k : Int) (cs : List Con) : (lpMax n e k cs).isKnown = true := by
-  unfold lpMax; split <;> rfl
+  unfold lpMax
+  split
+  · rfl
+  · split
+    · rfl
+    · split
+      · simp only
+        split
+        · rfl
+        · exact lpMaxFM_known n e k cs
+      · exact lpMaxFM_known n e k cs
 
 /-! ### joining sub-problems -/
 
@@ -144,52 +263,61 @@ theorem linObj_unit (i : Nat) (a : Int) (x : Val) : linObj (unitRow i a) 0 x = (
 
 theorem unitRow_length (i : Nat) (a : Int) : (unitRow i a).length = i + 1 := by simp [unitRow]
 
+theorem int_le_ratFloor (z : Int) (q : Rat) (h : (z : Rat) ≤ q) : z ≤ ratFloor q := by
+  unfold ratFloor
+  apply int_le_floor z q.num q.den (by exact_mod_cast q.den_pos)
+  rw [show ((q.den : Int) : Rat) = (q.den : Rat) by norm_cast, Rat.num_div_den]; exact h
+
 /-- what `varRange` reports is true of the solution set -/
-theorem varRange_spec (n i : Nat) (cs : List Con) (hwf : WF n cs) (hi : i < n) :
+theorem varRange_spec (n i : Nat) (cs : List Con) (hwf : WF n cs) (hns : NonStrict cs) (hi : i < n) :
     match varRange n i cs with
     | .empty => sem cs = ∅
     | .unbounded => (∃ x, x ∈ sem cs) ∧ ((∀ M : Rat, ∃ x ∈ sem cs, M < x i) ∨ (∀ M : Rat, ∃ x ∈ sem cs, x i < M))
     | .fin lo hi => ∀ x ∈ sem cs, ∀ z : Int, x i = (z : Rat) → lo ≤ z ∧ z ≤ hi := by
   have hlen : ∀ a : Int, (unitRow i a).length ≤ n := fun a => by rw [unitRow_length]; omega
-  have h1 := supB_spec n (unitRow i 1) 0 cs hwf (hlen 1)
-  have h2 := supB_spec n (unitRow i (-1)) 0 cs hwf (hlen (-1))
-  have e1 : ∀ x : Val, dot (unitRow i 1) x + ((0 : Int) : Rat) = x i := fun x => by
-    have := linObj_unit i 1 x; unfold linObj at this; rw [this]; simp
-  have e2 : ∀ x : Val, dot (unitRow i (-1)) x + ((0 : Int) : Rat) = - x i := fun x => by
-    have := linObj_unit i (-1) x; unfold linObj at this; rw [this]; simp
-  simp only [e1] at h1
-  simp only [e2] at h2
+  have h1 := lpMax_correct n (unitRow i 1) 0 cs hwf hns (hlen 1)
+  have h2 := lpMax_correct n (unitRow i (-1)) 0 cs hwf hns (hlen (-1))
+  have e1 : linObj (unitRow i 1) 0 = fun x => x i := by
+    funext x; rw [linObj_unit]; simp
+  have e2 : linObj (unitRow i (-1)) 0 = fun x => - x i := by
+    funext x; rw [linObj_unit]; simp
+  rw [e1] at h1
+  rw [e2] at h2
+  have hk1 := lpMax_known n (unitRow i 1) 0 cs
+  have hk2 := lpMax_known n (unitRow i (-1)) 0 cs
   unfold varRange
-  cases hs1 : supB n (unitRow i 1) 0 cs with
-  | empty => rw [hs1] at h1; exact h1
+  cases hs1 : lpMax n (unitRow i 1) 0 cs with
+  | unfeasible => rw [hs1] at h1; exact h1
+  | unknownUnboundedIntVar => rw [hs1] at hk1; cases hk1
   | unbounded =>
     rw [hs1] at h1
-    cases hs2 : supB n (unitRow i (-1)) 0 cs with
-    | empty => rw [hs2] at h2; exact h2
+    cases hs2 : lpMax n (unitRow i (-1)) 0 cs with
+    | unfeasible => rw [hs2] at h2; exact h2
+    | unknownUnboundedIntVar => rw [hs2] at hk2; cases hk2
     | unbounded => exact ⟨h1.1, Or.inl h1.2⟩
-    | val p' q' a' => exact ⟨h1.1, Or.inl h1.2⟩
-  | val p q a =>
+    | optimum w => exact ⟨h1.1, Or.inl h1.2⟩
+  | optimum v =>
     rw [hs1] at h1
-    cases hs2 : supB n (unitRow i (-1)) 0 cs with
-    | empty => rw [hs2] at h2; exact h2
+    cases hs2 : lpMax n (unitRow i (-1)) 0 cs with
+    | unfeasible => rw [hs2] at h2; exact h2
+    | unknownUnboundedIntVar => rw [hs2] at hk2; cases hk2
     | unbounded =>
       rw [hs2] at h2
       refine ⟨h2.1, Or.inr fun M => ?_⟩
       obtain ⟨x, hx, hlt⟩ := h2.2 (-M)
       exact ⟨x, hx, by linarith⟩
-    | val p' q' a' =>
+    | optimum w =>
       rw [hs2] at h2
       intro x hx z hz
-      obtain ⟨hq, hle, -, -⟩ := h1
-      obtain ⟨hq', hle', -, -⟩ := h2
-      have hu := hle x hx
-      have hl := hle' x hx
+      have hu := h1.2 x hx
+      have hl := h2.2 x hx
+      simp only at hu hl
       rw [hz] at hu hl
       constructor
-      · have : (((-z : Int)) : Rat) ≤ (p' : Rat) / (q' : Rat) := by push_cast; exact hl
-        have := int_le_floor (-z) p' q' hq' this
+      · have : (((-z : Int)) : Rat) ≤ w := by push_cast; exact hl
+        have := int_le_ratFloor (-z) w this
         omega
-      · exact int_le_floor z p q hq hu
+      · exact int_le_ratFloor z v hu
 
 /-! ### the enumeration -/
 
@@ -228,7 +356,7 @@ theorem mipMax_correct (n : Nat) (e : List Int) (k : Int) (he : e.length ≤ n) 
   | cons i is ih =>
     intro cs hwf hns his
     have hi : i < n := his i List.mem_cons_self
-    have hspec := varRange_spec n i cs hwf hi
+    have hspec := varRange_spec n i cs hwf hns hi
     unfold mipMax
     cases hr : varRange n i cs with
     | empty =>
@@ -266,15 +394,15 @@ theorem mipMax_correct (n : Nat) (e : List Int) (k : Int) (he : e.length ≤ n) 
 def BoundedVar (S : Set Val) (i : Nat) : Prop := ∃ lo hi : Rat, ∀ x ∈ S, lo ≤ x i ∧ x i ≤ hi
 
 theorem mipMax_known (n : Nat) (e : List Int) (k : Int) :
-    ∀ (is : List Nat) (cs : List Con), WF n cs → (∀ i ∈ is, i < n) →
+    ∀ (is : List Nat) (cs : List Con), WF n cs → NonStrict cs → (∀ i ∈ is, i < n) →
       (∀ i ∈ is, BoundedVar (sem cs) i) → (mipMax n e k is cs).isKnown = true := by
   intro is
   induction is with
-  | nil => intro cs _ _ _; exact lpMax_known n e k cs
+  | nil => intro cs _ _ _ _; exact lpMax_known n e k cs
   | cons i is ih =>
-    intro cs hwf his hb
+    intro cs hwf hns his hb
     have hi : i < n := his i List.mem_cons_self
-    have hspec := varRange_spec n i cs hwf hi
+    have hspec := varRange_spec n i cs hwf hns hi
     unfold mipMax
     cases hr : varRange n i cs with
     | empty => rfl
@@ -291,7 +419,7 @@ theorem mipMax_known (n : Nat) (e : List Int) (k : Int) :
       simp only
       apply foldl_join_known _ _ _ rfl
       intro z _
-      apply ih _ (wf_fixRows n i z cs hwf hi) (fun j hj => his j (List.mem_cons_of_mem _ hj))
+      apply ih _ (wf_fixRows n i z cs hwf hi) (nonStrict_fixRows i z cs hns) (fun j hj => his j (List.mem_cons_of_mem _ hj))
       intro j hj
       obtain ⟨l, h, hbd⟩ := hb j (List.mem_cons_of_mem _ hj)
       refine ⟨l, h, fun x hx => hbd x ?_⟩
